@@ -259,7 +259,7 @@ def circle_segment(theta, r=1, center=(0,0,0), normal=(0,0,1), xaxis=(1,0,0)):
     if r <= 0:
         raise ValueError('radius needs to be positive')
     if theta == 2*pi:
-        return circle(r, center, normal)
+        return circle(r, center, normal, xaxis=xaxis)
 
     # build knot vector
     knot_spans = int(ceil(abs(theta) / (2 * pi / 3)))
